@@ -5,9 +5,12 @@
    carries on): witnesses below.  The first half is decided by the C17 check at L-1, L, L+1 for each
    limit; proved in Coq: the byte-level facts that make each limit exact (a length or value within the
    limit is emitted unchanged by the low-byte / low-word writers and read back by the unsigned / signed
-   readers), for ALL values within the limits. *)
-From Coq Require Import Lia.
-From EZ Require Import Base Bytes Types Api Enc Dec Float32 Run Proofs_Bytes.
+   readers), for ALL values within the limits; AND the first half at record level: a parameter AT the limits
+   (127-character name, 255-character description, 255 entries, 16-bit extremes, 255 strings of 255 characters...)
+   is well formed (wf_param IS the list of the limits), so it is written and read back unchanged by
+   C17_at_the_limits_roundtrip (= the record theorem of C01), and with C01_load_save the whole object is. *)
+From Coq Require Import Lia ZifyN.
+From EZ Require Import Base Bytes Types Api Enc Dec Float32 Run Proofs_Bytes Proofs_Codec Proofs_Record.
 Local Open Scope N_scope.
 
 Definition param_cap_ok (p : param) : bool :=
@@ -65,6 +68,34 @@ Theorem C17_beyond_refuted :
   read_uint [low8 256] = 0 /\ hex2int [low8 128] = (-128)%Z.
 Proof. repeat split; vm_compute; reflexivity. Qed.
 Print Assumptions C17_beyond_refuted.
+
+(* a parameter at the limits is written and read back unchanged *)
+Theorem C17_at_the_limits_roundtrip : forall p gid, wf_param p -> bstr_eqb (p_name p) nm_DATA_START = false ->
+  exists b0 b1 bytes, param_record p gid = Ok (b0 :: b1 :: bytes, None) /\ b1 = low8 gid /\
+    forall st r, st_fail st = false -> st_rest st = bytes ++ r ->
+      exists nxt, read_param (hex2int [b0]) st = Ok ((upper_name p, nxt), adv st (length bytes) r).
+Proof. exact param_record_roundtrip. Qed.
+Print Assumptions C17_at_the_limits_roundtrip.
+
+(* ... and these ARE at the limits: name of 127 characters, description of 255, 255 entries holding both 16-bit extremes *)
+Example C17_limits_are_well_formed :
+  wf_param (mkParam (repeat 78 127) (repeat 100 255) true TInt [255] (repeat 32767%Z 127 ++ repeat (-32768)%Z 128) [] []) /\
+  wf_param (mkParam [83] [] false TChar [255; 2] [] [] [repeat 65 255; [66]]) /\
+  wf_param (mkParam [66] [] false TByte [2] [127; -128]%Z [] []).
+Proof.
+  assert (F : forall (A : Type) (P : A -> Prop) x n, P x -> Forall P (repeat x n)) by (intros A P x n H; induction n; cbn; constructor; auto).
+  unfold wf_param, name_ok, desc_ok, dims_ok, typed_ok, no_nul. repeat split;
+    try (cbn [p_name p_desc p_dims p_type p_ints p_floats p_strs length]; rewrite ?repeat_length; lia);
+    try (cbn [p_name p_desc]; try (unfold upper; rewrite <- (map_repeat)); apply F; discriminate);
+    try reflexivity; try discriminate; try (vm_compute; discriminate).
+  all: try (cbn [p_dims p_ints p_strs]; repeat constructor; unfold byte_ok, int16, int8, str_ok, no_nul; try lia).
+  all: try (apply Forall_app; split; apply F; unfold int16; lia).
+  all: try (vm_compute; reflexivity).
+  all: try (unfold LIMC; vm_compute; discriminate).
+  all: try (cbn; unfold nlen; rewrite ?repeat_length; cbn; lia).
+  all: try (apply F; discriminate).
+Qed.
+Print Assumptions C17_limits_are_well_formed.
 
 Example C17_nonvacuous : cap_ok init = true.
 Proof. vm_compute. reflexivity. Qed.
